@@ -893,12 +893,20 @@ class Interp:
                     out.append(self.eval(x.elt, env2, g, fn))
                 return
             gen = x.generators[gi]
-            for item in ops.iterate(self, self.eval(gen.iter, env2, g, fn)):
+            for item in (first if gi == 0 else ops.iterate(self, self.eval(gen.iter, env2, g, fn))):
                 env3 = Env(env2)
                 self.assign(gen.target, item, env3, g, fn)
                 if all(ops.truth(self, self.eval(c, env3, g, fn)) for c in gen.ifs):
                     rec(gi + 1, env3)
 
+        # the outermost iterable is evaluated where the comprehension stands; a generator expression runs the rest
+        # when it is consumed
+        first = ops.iterate(self, self.eval(x.generators[0].iter, env, g, fn))
+        if isinstance(x, ast.GeneratorExp):
+            def run():
+                rec(0, Env(env))
+                return out
+            return ops.LazyShot(run)
         rec(0, Env(env))
         if isdict:
             d = {}
